@@ -118,7 +118,16 @@ CHECKS['C15']['note'] = '<= 2 extern values; run-time clause on sampled witnesse
 NA = {}
 ALL = [json.loads(l)['id'] for l in open('properties.jsonl')]
 NA['C13'] = 'whether the emitted crate type-checks is decided by rustc, not by a solver: there is no symbolic dimension to encode (Engine B compiles every witness program as a side effect and reports compile failures, but no C13 verdict is claimed)'
-NA['C17'] = 'visibility/derives/docs are a pure text mapping performed by the quote!-based backend (backends/rust.rs); interpreting quote/proc_macro2/syn token construction symbolically was not reached within this round, and there is no numeric or path dimension for a solver to decide'
+CHECKS['C17'] = dict(text='Symbolic execution of the semantic stage for a module with a documented type (public/private, every subset of copyable / cloneable / defaultable, '
+             'packed or aligned), two fields, an address-bound function, a virtual function and an enum with the same markers, over all flag vectors of the type group with the '
+             'rest pinned and vice versa: z3 proves on every path that the resolved model carries exactly the declared visibility, markers (copyable implies cloneable), packing flag and '
+             'doc lines on every item, that the vftable pointer field and the generated table type carry none, and that a virtual function\'s doc and visibility are on its wrapper and its slot.  '
+             'Sampled witnesses are then emitted with the real backend: rustc-evaluated probes in Kani harnesses decide which of Copy / Clone / Default each emitted type implements and that packed '
+             'types have alignment 1, a module outside the emitted one names every public item, and the emitted text is compared with the model for `pub`, derive lists, repr attributes and doc lines '
+             '(each doc line on the counterparts of its item and nowhere else).',
+             note='one module, one type with two fields, one impl function, one virtual function, one enum; 0..2 doc lines per item; the two flag groups are varied separately, not as a full product; '
+                  'the all-inputs part is the semantic model — the emitted text is decided for the sampled witnesses (24 quick / 96 thorough); inherited copies of documented functions and the parser step (doc comments to doc attributes) are outside',
+             design='4/C17', technique=TECHB)
 NA['C18'] = 'the parser is a thin layer over syn::ParseStream and proc_macro2\'s lexer; neither can be executed by Kani in usable time (measured, DESIGN.md section 1) nor interpreted from the MIR dump (external crates), and the quantifier ranges over grammar derivations, which a solver does not decide better than a generator'
 for p in ALL:
     if p not in CHECKS and p not in NA:
